@@ -7,6 +7,7 @@ CONSTANTS
  TagDels = {0, 1}
  SubjSel = {"same"}
  Spells = {"dig"}
+ Dopts = {"check"}
  MaxOps = 3
  MaxConc = 2
  SameSubject = TRUE
